@@ -217,7 +217,7 @@ def service_calls(res, rng, host, eq, scen, n_calls):
     ops = ["sv", "svs", "ec", "set_ec", "set_ec_bad", "online", "offline", "alarm_en", "alarm_dis", "alarms", "enabled_alarms",
            "subscribe", "trigger", "trigger", "rcmd", "set_alarm", "clear_alarm", "ayt", "list_svs", "list_ecs", "subscribe_race", "trigger_burst"]
     # every first use of a pair names a predefined event by its enum member once (deterministic prelude), the rest is random
-    forced = [("subscribe", 21), ("trigger", 21), ("trigger", 21)] if 21 not in subscribed else []
+    forced = [("subscribe", 21), ("trigger", 21), ("trigger", 21), ("sys0", None)] if 21 not in subscribed else [("sys0", None)]
     for i in range(n_calls + len(forced)):
         force_ceid = None
         if forced:
@@ -230,7 +230,15 @@ def service_calls(res, rng, host, eq, scen, n_calls):
         def fail(what, expected=None, actual=None, klass="c20-service"):
             res.violate(klass, what, case, expected, actual)
 
-        if op == "sv":
+        if op == "sys0":
+            # the request that is sent with system bytes 0x00000000 (the counter wraps there) is an ordinary request
+            with host.protocol._system_counter_lock:
+                host.protocol._system_counter = 2 ** 32 - 1
+            st, v = bounded(lambda: host.request_sv(10))
+            if st != "ok" or plain(v) != eq.sv[10]:
+                fail("request_sv(10) sent with system bytes 0 (counter wrap) does not return the equipment's value", eq.sv[10],
+                     (st, plain(v) if st == "ok" else repr(v)))
+        elif op == "sv":
             svid = rng.choice([10, "SV2", 11, 1002])
             st, v = bounded(lambda: host.request_sv(svid))
             want = eq.sv[svid] if svid in eq.sv else eq._get_control_state_id()
@@ -464,6 +472,12 @@ def scenario(res, rng, drv_lines, host_active, eq_first, seg, delays, n_calls, c
         if ok and race_out.get("v") is not True:
             res.violate("c20-waitfor-lost-wakeup", "waitfor_communicating(4) returned False / did not return although the handler reached COMMUNICATING while it was registering",
                         case, True, race_out.get("v"))
+        # the 32-bit system-bytes counters wrap during the service calls in some scenarios (system bytes 0xFFFFFFFF, 0, 1 are ordinary values)
+        for h, tag in ((host, "host"), (eq, "equipment")):
+            if rng.chance(1, 2):
+                with h.protocol._system_counter_lock if hasattr(h.protocol, "_system_counter_lock") else threading.Lock():
+                    h.protocol._system_counter = 2 ** 32 - 1 - rng.range(0, 3)
+                case[f"{tag}_system_counter"] = "wraps"
         res.count(("start", scen), sample={"scenario": scen, "communicating": ok, "seconds": round(dt, 3)})
         res.bump("c20_convergence_s", int(dt))
         if not ok:
